@@ -745,6 +745,8 @@ Proof.
   assert (Hc : forall s5, jr s5 (if eff_cancelled s5 (g_scope (groups s5 g)) then s5
                                    else scope_cancel s5 (g_scope (groups s5 g)) false)).
   { intros s5. destruct (eff_cancelled s5 _); [apply jr_refl|]. apply jr_scope_cancel. intros J. apply (jp_gs _ J). }
+  assert (Hsc : forall s5, jr s5 (scope_cancel s5 (g_scope (groups s5 g)) false)).
+  { intros s5. apply jr_scope_cancel. intros J. apply (jp_gs _ J). }
   assert (Ha : forall e, jr s4 (upd_group s4 g (add_exc t e))) by (intros e; jeq).
   assert (Hsf : forall f v, k_startfut (tasks s0 t) = Some f -> jr s4 (fut_complete s4 f v)).
   { intros f v Ef. apply jr_pre. intros J. apply jr_fc. left. intros ->.
@@ -760,17 +762,17 @@ Proof.
   - destruct (k_startfut (tasks s0 t)) as [f|] eqn:Ef.
     + destruct (f_st (futs s4 f)).
       * now apply Hsf.
-      * destruct (is_cancel e); [apply Hc|]. eapply jr_trans; [apply Ha|apply Hc].
-      * destruct (is_cancel e); [apply Hc|]. eapply jr_trans; [apply Ha|apply Hc].
-      * destruct (is_cancel e); [apply jr_refl|]. eapply jr_trans; [apply Ha|apply Hc].
-    + destruct (is_cancel e); [apply Hc|]. eapply jr_trans; [apply Ha|apply Hc].
+      * destruct (is_cancel e); [apply Hc|]. eapply jr_trans; [apply Ha|apply Hsc].
+      * destruct (is_cancel e); [apply Hc|]. eapply jr_trans; [apply Ha|apply Hsc].
+      * destruct (is_cancel e); [apply jr_refl|]. eapply jr_trans; [apply Ha|apply Hsc].
+    + destruct (is_cancel e); [apply Hc|]. eapply jr_trans; [apply Ha|apply Hsc].
   - destruct (k_startfut (tasks s0 t)) as [f|] eqn:Ef.
     + destruct (f_st (futs s4 f)).
       * now apply Hsf.
-      * destruct (is_cancel e); [apply Hc|]. eapply jr_trans; [apply Ha|apply Hc].
-      * destruct (is_cancel e); [apply Hc|]. eapply jr_trans; [apply Ha|apply Hc].
-      * destruct (is_cancel e); [apply jr_refl|]. eapply jr_trans; [apply Ha|apply Hc].
-    + destruct (is_cancel e); [apply Hc|]. eapply jr_trans; [apply Ha|apply Hc].
+      * destruct (is_cancel e); [apply Hc|]. eapply jr_trans; [apply Ha|apply Hsc].
+      * destruct (is_cancel e); [apply Hc|]. eapply jr_trans; [apply Ha|apply Hsc].
+      * destruct (is_cancel e); [apply jr_refl|]. eapply jr_trans; [apply Ha|apply Hsc].
+    + destruct (is_cancel e); [apply Hc|]. eapply jr_trans; [apply Ha|apply Hsc].
   - destruct (k_startfut (tasks s0 t)) as [f|] eqn:Ef; [|apply jr_refl].
     destruct (f_st (futs s4 f)); try apply jr_refl. now apply Hsf.
 Qed.
